@@ -214,14 +214,10 @@ NothingLeft == (phase = "resolved" /\ fault # "undeclared") =>
 SequentialAgrees == (phase = "resolved" /\ fault = "none") => Sequential(args, decl) = out
 (* what the verdict of checkDataReferences has to be *)
 Verdict == CASE fault = "unused" -> "unused" [] fault = "undeclared" -> "undeclared" [] OTHER -> "ok"
-(* the invalid inputs are only bound to the implementation when nothing else in the line can be confused with *)
-(* the missing / undeclared reference (otherwise the case belongs to the substitution family proper)           *)
+(* the invalid inputs are explored with one occurrence per reference (the interplay of faults with the usages is *)
+(* not part of the statement)                                                                                    *)
 SingleUse == \A k \in 1..Len(decl) : Len(usage[k]) <= 1
-CleanFault == CASE fault = "unused" -> SingleUse /\ \A k \in 1..Len(decl) : usage[k] = <<>> =>
-                                                       ~Contains(args, Rel(decl[k]))
-                [] fault = "undeclared" -> SingleUse /\ \A i \in Range(decl) : Substituted(i) =>
-                                                            ~Contains(Str(extra, "abs"), Rel(i))
-                [] OTHER -> TRUE
+CleanFault == fault # "none" => SingleUse
 
 (* ---------------------------------------------------------------------- *)
 RefJson(k) == LET i == decl[k] IN
